@@ -41,3 +41,29 @@ Definition fib_home64 (cap : nat) (h : N) : nat :=
 (* HandleTable: (handle.wrapping_mul(2654435769) [u32] as usize) & (capacity - 1) *)
 Definition fib_home32_mask (cap : nat) (h : N) : nat :=
   N.to_nat (N.land ((h * fib_mult) mod two32) (N.of_nat cap - 1)).
+
+(* little-endian decoding of a byte list *)
+Fixpoint le_to_N (bs : list N) : N :=
+  match bs with
+  | [] => 0
+  | b :: r => b + 256 * le_to_N r
+  end.
+
+Definition u32_to_i32 (n : N) : Z :=
+  let z := Z.of_N (n mod two32) in
+  if (z <? 2147483648)%Z then z else (z - 4294967296)%Z.
+Definition i32_to_u32 (z : Z) : N := Z.to_N (z mod 4294967296)%Z.
+
+(* Handle::from_bytes / FromStr for Handle: FNV-1a-32 over the bytes (no 0 remap; debug_assert only) *)
+Definition handle_of_bytes (bs : list N) : N := fnv_bytes fnv_offset bs.
+
+(* hash_u64(key, mask) of handle_table.rs, with Wrapping<u64> arithmetic *)
+Definition hash_u64 (key mask : N) : N :=
+  let key := (key + (if key =? 0 then mask else 0)) mod two64 in
+  let step k := N.land ((N.lxor (N.shiftr k 16) k * 73207611) mod two64) mask in
+  let k1 := step key in
+  let k2 := step k1 in
+  let k3 := N.land (N.lxor (N.shiftr k2 16) k2) mask in
+  (N.lxor (N.shiftr k3 32) k3) mod two32.
+Definition handle_from_u32 (k : N) : N := hash_u64 k mask32.
+Definition handle_from_u64 (k : N) : N := hash_u64 k (two64 - 1).
